@@ -172,6 +172,24 @@ def r04b(ctx):
                 ctx.report("R04b", f, a, f"add_full_path({ptxt}) without set_part({ptxt}) on some path",
                            f"the manifest entry for {ptxt} is added on a path where the part itself is not written into the container: "
                            f"the manifest can list a file that is absent from the package")
+    # … and an entry is only removed for a part that is deleted on every path to that point
+    for f in m.all_funcs:
+        if f.kind == "nested" or f.name in ("_check_manifest_rdf",):
+            continue
+        dels = calls(f, lambda c: call_name(c) == "del_full_path" and c.args and "manifest" in canon(f, c.func.value).lower())
+        if not dels:
+            continue
+        cfg = cfg_of(f)
+        for a in dels:
+            ptxt = ast.unparse(a.args[0])
+            removers = calls(f, lambda x: call_name(x) == "del_part" and x.args and ast.unparse(x.args[0]) == ptxt)
+            an = node_of(cfg, a)
+            ok = bool(removers) and cfg.path_avoiding(cfg.entry, an, [node_of(cfg, w) for w in removers], follow_exc=False) is None
+            ctx.instance("R04b", f"{f.file}:{f.ident}", f"del_full_path({ptxt}) only after del_part({ptxt}) on every path", ok=ok, nontrivial=True, line=a.lineno)
+            if not ok:
+                ctx.report("R04b", f, a, f"del_full_path({ptxt}) without del_part({ptxt}) on some path",
+                           f"the manifest entry for {ptxt} is removed on a path where the part itself is not deleted from the container: the saved package "
+                           f"holds a file the manifest does not list")
     # _check_manifest_rdf runs before the flush in Document.save
     f = repo.func("Document.save")
     cfg = cfg_of(f)
@@ -262,6 +280,9 @@ _CT = "src/odfdo/container.py"
 _DOC = "src/odfdo/document.py"
 _MA = "src/odfdo/manifest.py"
 SEEDS = [
+    Seed("del_part removes the bytes only when the container lists the part", "fault", _DOC,
+         "        self.container.del_part(path)\n        with suppress(KeyError):\n            self.manifest.del_full_path(path)\n",
+         "        if path in self.container.parts:\n            self.container.del_part(path)\n        with suppress(KeyError):\n            self.manifest.del_full_path(path)\n", "R04b"),
     Seed("mimetype deflated", "fault", _CT, 'filezip.writestr("mimetype", mimetype, ZIP_STORED)', 'filezip.writestr("mimetype", mimetype, ZIP_DEFLATED)', "R04a"),
     Seed("mimetype default compression", "fault", _CT, 'filezip.writestr("mimetype", mimetype, ZIP_STORED)', 'filezip.writestr("mimetype", mimetype)', "R04a"),
     Seed("manifest written first", "fault", _CT,
